@@ -1173,8 +1173,9 @@ def run(ctx):
             f.result()
     # 2. export every behaviour (spec -> code)
     runs = model_runs(ctx.tier)
-    if dev:
-        runs = runs[-3:]
+    if dev:                                   # "new": the last three export runs; "a:b": that slice of them
+        a, _, b = dev.partition(":")
+        runs = runs[int(a):int(b)] if b else runs[-3:]
 
     def export(consts):
         r = ctx.tlc("ByteOrderMC.tla", what="export chains: " + describe(consts),
